@@ -1165,9 +1165,13 @@ pub fn run_pass(ctx: &Ctx, sc: &Scenario, inject: bool) -> PassResult {
             let lib_panics = cfg.as_ref().map(|c| reference(c).is_none());
             if !rec.fired.is_empty() {
                 if transp_fired && !hard_fired && lib_panics == Some(false) {
-                    // accepted (the property does not promise that EINTR / short transfers are
-                    // survived), but worth seeing: it stays at 0 while the tool uses write_all
+                    // a short transfer or an interrupted call is not an error: a tool that dies on
+                    // one does not answer an accepted command line (seeded c19-w). Hard faults
+                    // (errno, crash, tear) stay accepted below.
                     res.probes.transparent_fault_then_nonzero += 1;
+                    viol!("O1-unexpected-failure", format!("exit {:?} signal {:?} after only transparent I/O conditions ({}) on a configuration the library computes", child.exit, child.signal, rec.fired.join(",")));
+                    res.steps.push(rec);
+                    continue;
                 }
                 if lib_panics == Some(true) {
                     res.probes.library_reference_panicked += 1;
